@@ -364,6 +364,46 @@ func c19ClientScenario(ncallers int, dotu bool, D int) Scenario {
 	}}
 }
 
+// (l) callers of one client, each on a fid of its own, that hand the library the same
+// argument values (one *Dir as a template for several Wstat calls, one slice of names
+// for several walks, one buffer written by several Writes): arguments are the caller's,
+// the library only reads them
+func c19ClientSharedArgs(ncallers int, viaTag, dotu bool, D int) Scenario {
+	name := fmt.Sprintf("shared-client-peer callers=%d passing the same argument values via-tag=%v dotu=%v", ncallers, viaTag, dotu)
+	body := func() {
+		vs.EnableHB()
+		c, peer := newClientPair(8192, dotu)
+		peer.Batch = ncallers
+		peer.BatchOnce = true
+		tmpl := &go9p.Dir{Mode: 0644, Name: "", Uid: "", Gid: "", Muid: "", Length: ^uint64(0), Atime: ^uint32(0), Mtime: ^uint32(0), Uidnum: go9p.NOUID, Gidnum: go9p.NOUID, Muidnum: go9p.NOUID}
+		names := []string{"a", "b"}
+		data := []byte("the same bytes")
+		vs.Window(true)
+		for i := 0; i < ncallers; i++ {
+			i := i
+			vs.Go("caller", func() {
+				f := mkFid(c, uint32(10+i))
+				switch {
+				case viaTag:
+					t := c.TagAlloc(make(chan *go9p.Req, 4))
+					t.Wstat(f, tmpl)
+				case i%3 == 0 || ncallers == 2:
+					c.Wstat(f, tmpl)
+				case i%3 == 1:
+					c.Walk(f, mkFid(c, uint32(1010+i)), names)
+				default:
+					c.Write(f, data, 0)
+				}
+			})
+		}
+		vs.Idle()
+		vs.Window(false)
+	}
+	return Scenario{Name: name, Run: func(rc *RunCtx) *Result {
+		return runVs(rc, &VsSpec{Name: name, Body: body, Check: c19Check, P: D, Delay: true})
+	}}
+}
+
 // (g) users the process has never looked up: attaches as fresh uids and a stat of a
 // file owned by yet another one, on two connections at once (the user table is
 // process-wide; each uid is new only once per process - here once per execution)
@@ -583,6 +623,7 @@ func c19Scenarios(tier string) []Scenario {
 		out = append(out, c19ClientScenario(2, dotu, D))
 	}
 	out = append(out, c19UfsScenario(3, true, D), c19ClientScenario(3, false, D))
+	out = append(out, c19ClientSharedArgs(2, false, true, D), c19ClientSharedArgs(3, false, false, D), c19ClientSharedArgs(2, true, true, D))
 	out = append(out, c19UfsSymlinkedRoot(false, D), c19UfsSymlinkedRoot(true, D))
 	out = append(out, c19UfsFreshUsers(D))
 	out = append(out, c19UfsOddTimes(false, D), c19UfsOddTimes(true, D))
